@@ -240,10 +240,19 @@ def run_case(keys, sname, res):
       except Exception as e:  # pylint: disable=broad-except
         res.violation('placeholder_wrong_error', 'statements %r: use raised %r' % (keys, e), desc)
         return
+    # History between the lenient parse and finalize (a function of the case): nothing / one more parse_config call
+    # that meets no unknown name / trailing bindings parsed on their own.  The placeholder is still in the config.
+    later = core.h64(repr(desc)) % 3
+    if later == 1:
+      gin.parse_config('# a later text without unknown names\n', skip_unknown=skip)
+    elif later == 2:
+      gin.parse_config_files_and_bindings(None, ['# nothing unknown here'], finalize_config=False, skip_unknown=skip)
+    if later:
+      res.w('later_parse_before_finalize')
     try:
       gin.finalize()
-      res.violation('placeholder_survives_finalize', 'statements %r: finalize accepted a config holding unknown '
-                    'references' % (keys,), desc)
+      res.violation('placeholder_survives_finalize', 'statements %r (later parse variant %d): finalize accepted a config '
+                    'holding unknown references' % (keys, later), desc)
     except ValueError as e:
       if 'No configurable matching' in str(e):
         res.w('placeholder_raises_at_finalize')
